@@ -21,7 +21,7 @@ CHECKS.update({
     ),
     "C13": dict(
         text="Lean 4 theorems over tables regenerated from the live registries/policy: the unrolling code is verified by kernel evaluation (unroll_matches); accepted without skip_checks => a legal runtime mode for that operator, for every config (accepted_minmax_legal, accepted_float_casting); unsupported => ValueError at update time, accepted => never refused; '*' rules that fail the check are never resolved (C11.resolve_sound). The model's acceptance function is compared with the code on the full 24-op x 960-config x 2-algorithm lattice exhaustively.",
-        note="'the interpreter prepares every accepted pair and tracks the float model' is runtime behaviour: not proved; executed on generated single-op models by the C01/C06/C07 checks",
+        note="'the interpreter prepares every accepted pair and tracks the float model' is runtime behaviour: not proved; executed for every accepted (algorithm, operator, config) point on a generated model built around that operator (C06/C07 oracles); findings D23-D25 recorded",
         design="§6 C13",
     ),
 })
@@ -82,6 +82,28 @@ CHECKS.update({
         design="§6 C19",
     ),
 })
+CHECKS.update({
+    "C06": dict(
+        text="PARTIAL proof. Proved in Lean 4: weight-only / float16 / dynamic-range modes request only DEQUANTIZE-on-constant or in-place constant quantization (C03.xfs_wo, xfs_drq), the rewritten graph keeps the exact operator skeleton of the input (C02.quantize_skeleton), and every stored constant dequantizes to within half a step (+ float32 slack) of the original (C17.dq_q_rounded). The pipeline model is compared bit-exactly with the code on every case. The statement's observable (interpreter(quantized) = interpreter(reference built from the INPUT model + independently decoded constants)) is executed on every generated (model, recipe, input): float32-rounding tolerance for weight-only/float16, generous bound for dynamic range, with localisation of the first operator that is off.",
+        note="LiteRT kernels (incl. hybrid kernels' dynamic 8-bit activation quantization) are outside the model: output equality is exploration-level evidence; two recorded findings D23 (C06) are call-site keyed",
+        design="§6 C06",
+    ),
+    "C07": dict(
+        text="PARTIAL proof. Proved in Lean 4: what the quantizer contributes to the integer numerics — scale positive/finite, zero point in range, value round-trip within half a step under IEEE rounding (C17.*), bias scale = input scale x weight scale with zero point 0 (C04.bias_params), per-operand transformations of static-range ops (C03.xfs_srq). Pipeline compared bit-exactly with the code. The statement's observable (dequantized interpreter outputs near the float outputs on the calibration input; never constant/non-finite when the float output is not) is executed on generated models of depth 1-4 for every static config family with a deliberately generous bound and localisation of the first operator that is off.",
+        note="LiteRT fixed-point kernels are outside the model: closeness is exploration-level evidence; recorded findings D24, D25 are call-site keyed",
+        design="§6 C07",
+    ),
+    "C16": dict(
+        text="Lean 4 theorems over the model of the large-model serializer (constants appended behind the flatbuffer, 16-byte aligned): for every buffer list, offsets are aligned, inside the file, pairwise disjoint and in order, every external buffer's (offset,size) fields point at exactly its bytes, small/empty buffers stay inline (C16.layout, C16.fields_point_to_data). Executed: quantize() forced through the large-model path (hook: threshold override) on generated models: raw offset/size fields parsed independently, offsets compared with the model, both serializations canonically equal and identical interpreter outputs.",
+        note="the flatbuffers writer and the 2 GiB threshold itself are external; the hook only lowers the threshold",
+        design="§6 C16",
+    ),
+    "C18": dict(
+        text="Lean 4 theorems on the validation model: mse / median-diff-ratio are 0 on identical tensors, non-negative, symmetric where stated; comparison produces exactly one entry per common tensor name, inputs are filed under their names; self-comparison is all-zero. Executed: validate() on generated models vs the model's metric arithmetic (exact), float-vs-float self comparison, one entry per flatbuffer tensor.",
+        note="the interpreter runs are external inputs of the model; interpreter-internal scratch tensors are ignored",
+        design="§6 C18",
+    ),
+})
 PENDING = {}
 ALL = [f"C{i:02d}" for i in range(1, 20)]
 
@@ -92,7 +114,7 @@ m = {
         "guard": "AI_EDGE_QUANTIZER_VERIF",
         "enable": "checks export AI_EDGE_QUANTIZER_VERIF=1 (see ./check); /repo is pure Python, nothing to rebuild",
         "baseline_off_cmd": "cd /repo && env -u AI_EDGE_QUANTIZER_VERIF /venv/bin/python -m pytest -ra -q -p no:cacheprovider --timeout=900 --continue-on-collection-errors",
-        "source_commits": [],
+        "source_commits": ["60815a513dae9062d0ff87dbb19546cc3598d09f"],
         "add_only": True,
     },
     "engines": [
